@@ -301,6 +301,68 @@ def run_reattached_owner(case, ctx, mon):
     mon.nontrivial(True)
 
 
+def run_repoint(case, ctx, mon):
+    """Views that are re-pointed: (a) a view obtained from helpers.attach_shared_memory for block A is re-pointed at block B and
+    kept alive, then a second helper view for A is requested - it must show A; (b) a re-point to a name that cannot be opened
+    raises, and the view goes on working on the block it was attached to."""
+    cfg = case["cfg"]
+    kind = cfg["kind"]
+    s = sk()
+    stype = "hh" if kind == "hh" else ("hll" if kind == "hll" else "cms")
+    A, B = make_by(cfg, "factory", True), make_by(cfg, "factory", True)
+    pa, pb = make_by(cfg, "factory", False), make_by(cfg, "factory", False)
+    universe = ops.universe_of([e[1] for e in case["events"]])[:20]
+    is_log = kind in ("log16", "log8")
+
+    def both(plain, handle, op, n):
+        if is_log:
+            state.share_draws(plain, handle)
+            state.numba_seed(case["draw_seed"] + n)
+        ops.apply_op(plain, op)
+        if is_log:
+            state.numba_seed(case["draw_seed"] + n)
+        mon.api(ops.apply_op, handle, op)
+
+    evs = [e[1] for e in case["events"]]
+    for n, op in enumerate(evs[:3]):
+        both(pa, A, op, n)
+    for n, op in enumerate(evs[3:5]):
+        both(pb, B, op, 50 + n)
+    v = s.helpers.attach_shared_memory(stype, A.args, A.shm.name)
+    agree(mon, pa, [("A", A), ("helper view of A", v)], kind, universe, cfg, "attach")
+    mon.api(v.attach_existing_shm, B.shm.name)
+    agree(mon, pb, [("B", B), ("view re-pointed from A to B", v)], kind, universe, cfg, "re-point")
+    w = s.helpers.attach_shared_memory(stype, A.args, A.shm.name)  # v is still alive
+    agree(mon, pa, [("A", A), ("second helper view of A (the first was re-pointed to B)", w)], kind, universe, cfg, "second helper attach")
+    for n, op in enumerate(evs[5:8]):
+        both(pa, w, op, 100 + n)
+        agree(mon, pa, [("A", A), ("second helper view of A", w)], kind, universe, cfg, ["via w", op])
+        agree(mon, pb, [("B", B), ("view re-pointed from A to B", v)], kind, universe, cfg, ["via w", op])
+    # (b) a re-point that fails
+    x = attach("attach_existing_shm", cfg, A)
+    agree(mon, pa, [("view x of A", x)], kind, universe, cfg, "attach x")
+    try:
+        x.attach_existing_shm("psm_vmon_no_such_block")
+        raised = None
+    except Exception as exc:  # noqa: BLE001
+        raised = type(exc).__name__
+    mon.check(raised is not None, "re-point-to-a-missing-block-raises", cfg=cfg)
+    agree(mon, pa, [("A", A), ("view x after a failed re-point", x)], kind, universe, cfg, "failed re-point")
+    for n, op in enumerate(evs[8:10]):
+        both(pa, x, op, 200 + n)
+        agree(mon, pa, [("A", A), ("view x after a failed re-point", x), ("second helper view of A", w)], kind, universe, cfg, ["via x after a failed re-point", op])
+    path_a, path_b = "/dev/shm/" + A.shm.name.lstrip("/"), "/dev/shm/" + B.shm.name.lstrip("/")
+    del v, w, x
+    gc.collect()
+    mon.check(os.path.exists(path_a) and os.path.exists(path_b), "dropping-a-view-keeps-the-segment", cfg=cfg)
+    del A, B
+    gc.collect()
+    mon.check(not os.path.exists(path_a) and not os.path.exists(path_b), "dropping-the-owner-removes-the-segment", cfg=cfg)
+    mon.count("repoint_cases")
+    mon.seen("repoint_kind", kind)
+    mon.nontrivial(True)
+
+
 def _fork_child(cfg, wfd):
     """Runs in a forked child: owner + view life-cycle with the library as the parent imported it; reports through a pipe."""
     import json
@@ -321,7 +383,7 @@ def _fork_child(cfg, wfd):
             out["view_agrees"] = (bool(np.array_equal(view.lhh_count, owner.lhh_count)) and bool(np.array_equal(view.lhh, owner.lhh))
                                   and int(owner.lhh_count.sum()) > 0 and int(view.n_added()) == int(owner.n_added()) == 5)
         else:
-            out["view_agrees"] = (bool(np.array_equal(view.cms, owner.cms)) and float(owner.query(b"k2")) >= 2
+            out["view_agrees"] = (bool(np.array_equal(view.cms, owner.cms)) and int(owner.cms.sum()) > 0
                                   and float(owner.query(b"k2")) == float(view.query(b"k2")) and int(view.n_added()) == int(owner.n_added()) == 5)
         del view
         gc.collect()
@@ -389,6 +451,10 @@ def gen_cases(ctx):
         c = gen_case(rng, ctx, state.ALL_KINDS[i % 5])
         if i % 25 >= 20:
             c["scenario"] = "reattached-owner"
+        elif i % 25 >= 15:
+            c["scenario"] = "repoint"
+            while len(c["events"]) < 10:
+                c["events"].append([0, ops.gen_op(rng, [unhx(k) for k in c["strangers"]] + [b"rp"], max_value=300 if c["cfg"]["kind"] in ("log16", "log8") else None, big=0.1)])
         yield c
         if i % 50 < 5:
             yield {"scenario": "forked-owner", "cfg": gen_cfg(rng, state.ALL_KINDS[i % 5])}
@@ -398,6 +464,8 @@ def run_any(case, ctx, mon):
     sc = case.get("scenario")
     if sc == "reattached-owner":
         run_reattached_owner(case, ctx, mon)
+    elif sc == "repoint":
+        run_repoint(case, ctx, mon)
     elif sc == "forked-owner":
         run_forked_owner(case, ctx, mon)
     else:
@@ -433,6 +501,7 @@ def floors(mon, ctx):
             mon.floor(f"unaligned cases of {kind}", mon.counters[f"unaligned_cases:{kind}"], 1)
     mon.floor("owners re-pointed at another block before being dropped (kinds)", len(mon.classes["reattached_owner_kind"]), 5)
     mon.floor("owners created and dropped in a forked child (kinds)", len(mon.classes["forked_owner_kind"]), 5)
+    mon.floor("kinds with re-pointed views", len(mon.classes["repoint_kind"]), 5)
     mon.floor("deletion orders", len(mon.classes["drop_order"]), 2)
     mon.floor("operations through a view", mon.counters["ops_via:view"], 100)
     mon.floor("merges out of / into handles", mon.counters["merges_through_handles"], 50)
